@@ -433,6 +433,9 @@ func (hs *clientHandshakeState) handshake() error {
 
 		// 先发送 CKE（doFullHandshake 已写入缓冲区），确保对端先处理 CKE
 		// 再将 CCS + Finished 另发，使对端用 readRecordOrCCS(true) 处理 CCS。
+		// 整个 Flight 5（Certificate*、ClientKeyExchange、CertificateVerify* 以及随后的 CCS + Finished）
+		// 都要保存用于超时重传：只重传 CCS + Finished 时，一旦前半部分丢失握手就无法恢复。
+		flight5 := append([]byte(nil), c.sendBuf...)
 		if _, err = c.flush(); err != nil {
 			return err
 		}
@@ -448,7 +451,7 @@ func (hs *clientHandshakeState) handshake() error {
 		}
 
 		// 保存 CCS + Finished 用于超时重传
-		hs.flightData = append([]byte(nil), c.sendBuf...)
+		hs.flightData = append(flight5, c.sendBuf...)
 
 		// 发送 CCS + Finished
 		c.hsState.Store(int32(stateSending))
